@@ -1,4 +1,5 @@
 import Crem.Proofs.Csv
+import Crem.Proofs.CsvFloat
 /-!
 # C20 — CSV text is parsed totally and faithfully into tables
 
@@ -16,11 +17,12 @@ The property, at full strength, for every text:
        ∧ ColumnAndRowSize t = (|first record|, records − 1))
   and never a panic.
 
-Two of the three defects found here were repaired in /repo (the guard in
+Three of the four defects found here were repaired in /repo (the guard in
 `deriveTableFromRecords`: a record-free text is now the error "csv content has no header record";
-`ColumnAndRowSize` now reports the column count remembered by `SetColumnAndRowSize`), so the
-no-panic and dimension clauses are proved at full strength (`load_no_panic`, `dims`).  One remains
-(kept by a baseline test that expects boolean cells):
+`ColumnAndRowSize` now reports the column count remembered by `SetColumnAndRowSize`; `AddTable`'s
+refusal of a name already in use is now recorded in the data set's errors), so the no-panic, the
+dimension and the error-xor-table clauses are proved at full strength (`load_no_panic`, `dims`,
+`parseInto_error_xor_table`).  One remains (kept by a baseline test that expects boolean cells):
 
   D20   `csv:bool-cell-loses-text`    a non-numeric field spelling a boolean becomes a `bool` cell,
                                       which `CellString` reads back as ""   (`bool_cell_reads_back_empty`)
@@ -28,6 +30,14 @@ no-panic and dimension clauses are proved at full strength (`load_no_panic`, `di
 for which the file carries the full statement (in a comment), the `_partial` theorem under the
 excluding hypothesis (a decidable predicate of the model), the characterisation of exactly where it
 fails, and the refuting `example` at the witness the harness also replays.
+
+Sections: the record reader · totality · shape · dimensions (`colNum`) · cells · round trips
+(`render`, `renderQ`) · ragged rows · mixed quoting and where the quote errors arise · text columns
+(`ParseCsvTextIntoTableWithTextColumns`) · a data set loaded into more than once · the VALUE of a
+number cell (independent IEEE-754 specification; scope `mantDigits ≤ 800`).
+
+"Field" throughout means what Go's `encoding/csv` reader returns for the text (with the rewriting it
+does: `\r\n` → `\n` also inside quotes, a trailing `\r` dropped, leading space trimmed).
 -/
 namespace Crem.Csv
 
@@ -116,7 +126,25 @@ theorem load_ok_shape (text : Bytes) (t : Table) (h : load text = .ok t) :
       simp only [List.getElem?_map]
       cases rows[i]? <;> simp [List.getElem?_map]
 
-/-! ## dimensions -/
+/-! ## dimensions
+
+The model's `Table` keeps `colNum` (what `SetColumnAndRowSize` remembered; what `ColumnAndRowSize`
+reports) apart from the header, as `baseTable` does, so a table whose reported column count
+disagrees with its header is expressible (`⟨[[0x61]], [], 7⟩`); that a load never produces one is
+`load_colNum`. -/
+
+/-- **load invariant**: the column count a loaded table reports is the length of its header -/
+theorem load_colNum (text : Bytes) (t : Table) (h : load text = .ok t) : t.colNum = t.header.length := by
+  rcases load_total text with ⟨e, _, h'⟩ | ⟨_, _, h'⟩ | ⟨hdr, rows, _, _, _, h'⟩
+  · rw [h'] at h; simp at h
+  · rw [h'] at h; simp at h
+  · rw [h'] at h
+    simp only [Load.ok.injEq] at h
+    subst h
+    rfl
+
+/-- the invariant is not a property of the type: here is a table that violates it -/
+example : (⟨[[0x61]], [], 7⟩ : Table).colNum ≠ (⟨[[0x61]], [], 7⟩ : Table).header.length := by decide
 
 /-- **Dimensions** (C20, full strength): what `ColumnAndRowSize` reports after a load is the number
 of header columns and the number of data rows (records − 1) of the text — header-only texts
@@ -171,8 +199,10 @@ theorem cast_faithful_partial (f : Bytes) (h : boolSpelled f = false) : cast f =
 theorem cast_bool_iff_boolSpelled (f : Bytes) : (∃ b, cast f = .bool b) ↔ boolSpelled f = true :=
   cast_bool_iff f
 
-/-- a numeric field becomes a number cell holding ParseFloat's value, and reads back through
-`CellFloat64` as that value -/
+/-- a numeric field becomes a number cell holding `parseFloat`'s result, and reads back through
+`CellFloat64` as that.  (By itself this says nothing about WHICH number: `isNumeric` is defined with
+the same `parseFloat`.  The value is pinned down in the last section: `parseFloat_small_nat`,
+`numeric_value_dec`, `numeric_value_hex`.) -/
 theorem numeric_cell (f : Bytes) (h : isNumeric f = true) :
     ∃ bits, parseFloat f = some bits ∧ cast f = .num bits ∧ cellFloat64 (cast f) = some bits := by
   unfold isNumeric at h
@@ -205,14 +235,14 @@ theorem bool_cell_reads_back_empty (f : Bytes) (h : boolSpelled f = true) :
 
 /-- the full statement is refuted by `"a\ntrue\n"`: the cell is a bool, not the text `true`,
 and `CellString` returns "" -/
-example : load [0x61, 0x0A, 0x74, 0x72, 0x75, 0x65, 0x0A] = .ok ⟨[[0x61]], [[.bool true]]⟩ ∧
+example : load [0x61, 0x0A, 0x74, 0x72, 0x75, 0x65, 0x0A] = .ok ⟨[[0x61]], [[.bool true]], 1⟩ ∧
     specCell [0x74, 0x72, 0x75, 0x65] = .text [0x74, 0x72, 0x75, 0x65] ∧
     cellString (.bool true) = .str [] := by decide
 example : boolSpelled [0x46] = true := by decide                -- `F`
 example : boolSpelled [0x31] = false := by decide               -- `1` is numeric, not a boolean spelling
 /-- the hypothesis is satisfiable: `"a,b\n1.5,x\n"` -/
 example : load [0x61, 0x2C, 0x62, 0x0A, 0x31, 0x2E, 0x35, 0x2C, 0x78, 0x0A] =
-    .ok ⟨[[0x61], [0x62]], [[.num 0x3FF8000000000000, .text [0x78]]]⟩ := by decide
+    .ok ⟨[[0x61], [0x62]], [[.num 0x3FF8000000000000, .text [0x78]]], 2⟩ := by decide
 
 /-! ## round trips (used by C13) -/
 
@@ -276,6 +306,184 @@ theorem renderQ_parse (n : Nat) (rows : List (List Bytes)) (h : wellFormedRowsQ 
     [] (by simp)
   simpa using this
 
+/-! ## ragged rows are rejected -/
+
+/-- **render_ragged_rejected.**  In a text of crem's own format, the first row whose field count
+differs from the header's makes the whole text an error — whatever follows it (`rest` is ANY byte
+string): a reader that padded, truncated or dropped the row would not satisfy this. -/
+theorem render_ragged_rejected (n : Nat) (pre : List (List Bytes)) (r' : List Bytes) (rest : Bytes)
+    (hpre : wellFormedRows n pre = true) (hne : pre ≠ [])
+    (hr' : ∀ f ∈ r', plainField f = true) (hr'ne : r' ≠ []) (hr'1 : r' ≠ [[]]) (hlen : r'.length ≠ n) :
+    readAll (render pre ++ renderRow r' ++ bNL :: rest) = .error .fieldCount := by
+  simp only [wellFormedRows, Bool.and_eq_true, decide_eq_true_eq, List.all_eq_true, beq_iff_eq,
+    bne_iff_ne] at hpre
+  obtain ⟨hn, hw⟩ := hpre
+  have hplain : ∀ r ∈ pre, ∀ f ∈ r, ∀ b ∈ f, b ≠ bCR := by
+    intro r hr f hf b hb
+    exact (((plainField_iff f).mp ((hw r hr).1.2 f hf)).1 b hb).2.2.2
+  have hplain' : ∀ f ∈ r', ∀ b ∈ f, b ≠ bCR := by
+    intro f hf b hb
+    exact (((plainField_iff f).mp (hr' f hf)).1 b hb).2.2.2
+  have hnoCR : ∀ b ∈ render pre ++ renderRow r', b ≠ bCR := by
+    intro b hb
+    rcases List.mem_append.mp hb with hb | hb
+    · exact render_noCR pre hplain b hb
+    · exact renderRow_noCR r' hplain' b hb
+  unfold readAll
+  rw [normalize_append_noCR _ hnoCR]
+  have hnl : normalize (bNL :: rest) = bNL :: normalize rest := by
+    have : (bNL == bCR) = false := by decide
+    simp [normalize, this]
+  rw [hnl, List.append_assoc]
+  have := scan_rows_prefix render renderRow rfl (fun _ _ => rfl) n pre
+    (fun r => (∀ f ∈ r, plainField f = true) ∧ r ≠ [[]] ∧ r ≠ [])
+    (fun r hp recs rest => by
+      have := scan_row r hp.1 true [] recs rest hp.2.2 (fun _ => hp.2.1)
+      simpa using this)
+    (fun r hr => by
+      obtain ⟨⟨hl, hp⟩, hne⟩ := hw r hr
+      refine ⟨hl, hp, hne, ?_⟩
+      intro h0
+      rw [h0] at hl
+      simp at hl
+      omega)
+    [] (renderRow r' ++ bNL :: normalize rest) (by simp)
+  rw [this]
+  have h2 := scan_row r' hr' true [] ([] ++ pre) (normalize rest) hr'ne (fun _ => hr'1)
+  rw [h2]
+  cases pre with
+  | nil => exact absurd rfl hne
+  | cons first tl =>
+    have hfl : first.length = n := (hw first (by simp)).1.1
+    rw [endRec_ragged (first := first) (by simp) (by simpa [hfl] using hlen)]
+    rfl
+
+/-- the same, said about whole tables: rows `pre` (at least the header), the ragged row, any rows `post` -/
+theorem render_ragged_rejected_table (n : Nat) (pre post : List (List Bytes)) (r' : List Bytes)
+    (hpre : wellFormedRows n pre = true) (hne : pre ≠ [])
+    (hr' : ∀ f ∈ r', plainField f = true) (hr'ne : r' ≠ []) (hr'1 : r' ≠ [[]]) (hlen : r'.length ≠ n) :
+    readAll (render (pre ++ r' :: post)) = .error .fieldCount := by
+  have := render_ragged_rejected n pre r' (render post) hpre hne hr' hr'ne hr'1 hlen
+  simpa [render_append, render] using this
+
+-- `a, b / c / d, e`: the short second row is an error, not a short row
+example : readAll (render [[[0x61], [0x62]], [[0x63]], [[0x64], [0x65]]]) = .error .fieldCount := by decide
+
+/-! ## mixed quoting; where the quote errors arise -/
+
+
+/-- **renderM_parse.**  Quoted and unquoted fields side by side, each with or without a space
+before it: every table whose fields are free of `\r`, whose unquoted fields are plain, and which
+has no row written as an empty line parses back to exactly its records. -/
+theorem renderM_parse (q sp : Bytes → Bool) (n : Nat) (rows : List (List Bytes))
+    (h : wellFormedRowsM q sp n rows = true) : readAll (renderM q sp rows) = .ok rows := by
+  obtain ⟨hn, hw⟩ := (wellFormedRowsM_iff q sp n rows).mp h
+  unfold readAll
+  rw [normalize_noCR _ (renderM_noCR q sp rows (fun r hr f hf => ((hw r hr).2.1 f hf).1))]
+  have := scan_rows_of_row (renderM q sp) (renderRowM q sp) rfl (fun _ _ => rfl) n rows
+    (fun r => (∀ f ∈ r, q f = true ∨ plainField f = true) ∧ r ≠ [] ∧ (r = [[]] → q [] = false → sp [] = true))
+    (fun r hp recs rest => by
+      have := scan_rowM q sp r hp.1 true [] recs rest hp.2.1 (fun _ => hp.2.2)
+      simpa using this)
+    (fun r hr => by
+      obtain ⟨hl, hf, hb⟩ := hw r hr
+      refine ⟨hl, fun f hf' => (hf f hf').2, ?_, hb⟩
+      intro h0
+      rw [h0] at hl
+      simp at hl
+      omega)
+    [] (by simp)
+  simpa using this
+
+/-- **Where `ErrBareQuote` arises**: after any well-formed rows and any complete fields of the
+current row, a `"` that follows a non-empty run of plain bytes — whatever comes after it. -/
+theorem bareQuote_arises (q sp : Bytes → Bool) (n : Nat) (pre : List (List Bytes)) (fs : List Bytes)
+    (g rest : Bytes) (hpre : wellFormedRowsM q sp n pre = true)
+    (hfs : ∀ f ∈ fs, (∀ b ∈ f, b ≠ bCR) ∧ (q f = true ∨ plainField f = true))
+    (hg : plainField g = true) (hgne : g ≠ []) :
+    readAll (renderM q sp pre ++ fieldsM q sp fs ++ g ++ bQuote :: rest) = .error .bareQuote := by
+  have hgCR : ∀ b ∈ g, b ≠ bCR := fun b hb => (((plainField_iff g).mp hg).1 b hb).2.2.2
+  rw [readAll_after_prefix q sp n pre fs g (bQuote :: rest) hpre hfs hgCR]
+  have hq : normalize (bQuote :: rest) = bQuote :: normalize rest := by
+    have : (bQuote == bCR) = false := by decide
+    simp [normalize, this]
+  rw [hq]
+  cases g with
+  | nil => exact absurd rfl hgne
+  | cons b g' => exact scan_start_plain_quote _ _ b g' _ hg
+
+/-- **Where `ErrQuote` arises (1)**: a quoted field whose closing quote is followed by anything
+but `"` `,` or a line end. -/
+theorem quote_arises_after_closing (q sp : Bytes → Bool) (n : Nat) (pre : List (List Bytes)) (fs : List Bytes)
+    (g : Bytes) (c : UInt8) (rest : Bytes) (hpre : wellFormedRowsM q sp n pre = true)
+    (hfs : ∀ f ∈ fs, (∀ b ∈ f, b ≠ bCR) ∧ (q f = true ∨ plainField f = true))
+    (hg : ∀ b ∈ g, b ≠ bCR) (hc : c ≠ bQuote ∧ c ≠ bComma ∧ c ≠ bNL ∧ c ≠ bCR) :
+    readAll (renderM q sp pre ++ fieldsM q sp fs ++ quoteField g ++ c :: rest) = .error .quote := by
+  have hqCR : ∀ b ∈ quoteField g, b ≠ bCR := by
+    have := fieldM_noCR (fun _ => true) (fun _ => false) g hg
+    simpa [fieldM] using this
+  rw [readAll_after_prefix q sp n pre fs (quoteField g) (c :: rest) hpre hfs hqCR]
+  have hn : normalize (c :: rest) = c :: normalize rest := by
+    have : (c == bCR) = false := by simpa using hc.2.2.2
+    simp [normalize, this]
+  rw [hn]
+  simp only [quoteField, List.cons_append, List.append_assoc, List.nil_append]
+  rw [scan_start_quote, scan_quoted_run, scan]
+  simp only [beq_self_eq_true, ↓reduceIte]
+  rw [scan]
+  have h1 : (c == bQuote) = false := by simpa using hc.1
+  have h2 : (c == bComma) = false := by simpa using hc.2.1
+  have h3 : (c == bNL) = false := by simpa using hc.2.2.1
+  simp [h1, h2, h3]
+
+/-- **Where `ErrQuote` arises (2)**: a quoted field that is still open when the text ends. -/
+theorem quote_arises_unterminated (q sp : Bytes → Bool) (n : Nat) (pre : List (List Bytes)) (fs : List Bytes)
+    (g : Bytes) (hpre : wellFormedRowsM q sp n pre = true)
+    (hfs : ∀ f ∈ fs, (∀ b ∈ f, b ≠ bCR) ∧ (q f = true ∨ plainField f = true))
+    (hg : ∀ b ∈ g, b ≠ bCR) :
+    readAll (renderM q sp pre ++ fieldsM q sp fs ++ (bQuote :: escapeQ g) ++ []) = .error .quote := by
+  have hqCR : ∀ b ∈ bQuote :: escapeQ g, b ≠ bCR := by
+    intro b hb
+    simp only [List.mem_cons] at hb
+    rcases hb with hb | hb
+    · subst hb; decide
+    · exact escapeQ_noCR g hg b hb
+  rw [readAll_after_prefix q sp n pre fs (bQuote :: escapeQ g) [] hpre hfs hqCR]
+  simp only [normalize, List.append_nil]
+  rw [scan_start_quote]
+  have := scan_quoted_run g { field := [], fields := fs, recs := pre } []
+  simp only [List.append_nil] at this
+  rw [this, scan]
+
+/-- **No quote, no quote error**: `ErrQuote` and `ErrBareQuote` arise only in texts containing `"`.
+So a text without `"` is read into records, or has a row of the wrong field count. -/
+theorem quote_error_needs_quote (text : Bytes)
+    (h : readAll text = .error .quote ∨ readAll text = .error .bareQuote) : bQuote ∈ text := by
+  by_cases hq : bQuote ∈ text
+  · exact hq
+  · exfalso
+    have hfree : ∀ b ∈ normalize text, b ≠ bQuote := by
+      intro b hb hbq
+      subst hbq
+      exact hq (mem_normalize text _ hb)
+    have := scan_quoteFree (.start true) {} (normalize text) rfl hfree
+    unfold readAll at h
+    rcases h with h | h
+    · exact this.1 h
+    · exact this.2 h
+
+theorem no_quote_ok_or_fieldCount (text : Bytes) (hq : bQuote ∉ text) :
+    (∃ rs, readAll text = .ok rs) ∨ readAll text = .error .fieldCount := by
+  cases hr : readAll text with
+  | ok rs => exact Or.inl ⟨rs, rfl⟩
+  | error e =>
+    right
+    cases e with
+    | fieldCount => rfl
+    | quote => exact absurd (quote_error_needs_quote text (Or.inl hr)) hq
+    | bareQuote => exact absurd (quote_error_needs_quote text (Or.inr hr)) hq
+    | noRecords => exact absurd hr (readAll_ne_noRecords text)
+
 /-! non-vacuity and necessity of the round-trip hypotheses (tests, labelled as such) -/
 
 -- `Solution, Actions` / `As-Is, 1ABC` in crem's format
@@ -294,6 +502,346 @@ example : readAll (renderQ [[[0x20, 0x61]], [[]], [[0x61, 0x2C, 0x62]], [[0x71, 
     .ok [[[0x20, 0x61]], [[]], [[0x61, 0x2C, 0x62]], [[0x71, 0x22, 0x71]], [[0x0A]]] := by decide
 -- `\r\n` inside quotes comes back as `\n` (so `wellFormedRowsQ` excludes `\r`)
 example : readAll (renderQ [[[0x0D, 0x0A]]]) = .ok [[[0x0A]]] := by decide
+
+/-! non-vacuity of the mixed-quoting and error theorems (tests, labelled as such) -/
+
+/-- quote a field iff it is not plain; a space before every field that starts with `x` -/
+def qNeeded (f : Bytes) : Bool := !plainField f
+def spX (f : Bytes) : Bool := f.head? == some 0x78
+-- `a,"b,c", x` / `"",d,e`: quoted and unquoted side by side, a quoted empty field, a trimmed space
+example : wellFormedRowsM qNeeded spX 3 [[[0x61], [0x62, 0x2C, 0x63], [0x78]], [[0x22], [0x64], [0x65]]] = true := by decide
+example : renderM qNeeded spX [[[0x61], [0x62, 0x2C, 0x63], [0x78]]] =
+    [0x61, 0x2C, 0x22, 0x62, 0x2C, 0x63, 0x22, 0x2C, 0x20, 0x78, 0x0A] := by decide
+example : readAll (renderM qNeeded spX [[[0x61], [0x62, 0x2C, 0x63], [0x78]], [[0x22], [0x64], [0x65]]]) =
+    .ok [[[0x61], [0x62, 0x2C, 0x63], [0x78]], [[0x22], [0x64], [0x65]]] := by decide
+-- a space before a quoted field: ` "a b"` (the case `"a" ,b` — space AFTER the quote — is ErrQuote, below)
+example : readAll (renderM (fun _ => true) (fun _ => true) [[[0x61, 0x20, 0x62]]]) = .ok [[[0x61, 0x20, 0x62]]] := by decide
+-- bareQuote_arises at `h\na,b"…`, quote_arises_after_closing at `h\n"a" ,b`, unterminated at `h\n"a`
+example : readAll ([0x68, 0x0A] ++ [0x61, 0x2C] ++ [0x62] ++ bQuote :: [0x7A]) = .error .bareQuote := by decide
+example : readAll ([0x68, 0x0A] ++ [] ++ quoteField [0x61] ++ 0x20 :: [0x2C, 0x62]) = .error .quote := by decide
+example : readAll ([0x68, 0x0A] ++ [] ++ (bQuote :: escapeQ [0x61]) ++ []) = .error .quote := by decide
+-- a quote at the START of an unquoted-looking field opens a quoted field instead (no bare quote): `"a"b`
+example : readAll [0x22, 0x61, 0x22, 0x62] = .error .quote := by decide
+
+/-! ## text columns (`ParseCsvTextIntoTableWithTextColumns`) -/
+
+/-- `ParseCsvTextIntoTable` is the text-column loader without headings -/
+theorem loadT_nil (text : Bytes) : loadT [] text = load text := by
+  unfold loadT load
+  cases readAll text with
+  | error e => rfl
+  | ok rs => exact deriveTableT_nil rs
+
+/-- **loadT_total.**  `load_total` with text columns: same errors, same header, same shape; the
+cell under heading `h` holding field `f` is `castIn ths h f`. -/
+theorem loadT_total (ths : List Bytes) (text : Bytes) :
+    (∃ e, readAll text = .error e ∧ loadT ths text = .error e) ∨
+    (noRecords text = true ∧ readAll text = .ok [] ∧ loadT ths text = .error .noRecords) ∨
+    (∃ hdr rows, readAll text = .ok (hdr :: rows) ∧ hdr ≠ [] ∧ (∀ r ∈ rows, r.length = hdr.length) ∧
+      loadT ths text = .ok { header := hdr, cells := rows.map (List.zipWith (castIn ths) hdr) }) := by
+  unfold loadT
+  cases hr : readAll text with
+  | error e => exact Or.inl ⟨e, rfl, rfl⟩
+  | ok rs =>
+    cases rs with
+    | nil => exact Or.inr (Or.inl ⟨(readAll_nil_iff text).mp hr, rfl, rfl⟩)
+    | cons hdr rows =>
+      have hg := readAll_good hr
+      exact Or.inr (Or.inr ⟨hdr, rows, rfl, (good_cons hg).1, (good_cons hg).2, deriveTableT_good ths hg⟩)
+
+theorem loadT_no_panic (ths : List Bytes) (text : Bytes) (p : PanicSite) : loadT ths text ≠ .panic p := by
+  rcases loadT_total ths text with ⟨e, _, h⟩ | ⟨_, _, h⟩ | ⟨hdr, rows, _, _, _, h⟩ <;> rw [h] <;> simp
+
+/-- whether a text is accepted, and with which error it is rejected, does not depend on the text headings -/
+theorem loadT_error_iff (ths : List Bytes) (text : Bytes) (e : CsvErr) :
+    loadT ths text = .error e ↔ load text = .error e := by
+  rcases loadT_total ths text with ⟨e', he, h⟩ | ⟨_, he, h⟩ | ⟨hdr, rows, he, _, _, h⟩ <;>
+  rcases load_total text with ⟨e'', he', h'⟩ | ⟨_, he', h'⟩ | ⟨hdr', rows', he', _, _, h'⟩ <;>
+  rw [h, h'] <;> rw [he] at he' <;> simp_all
+
+/-- a cell of a text column holds exactly the field's bytes and reads back through `CellString`
+unchanged — whatever the field looks like (`1E5`, `F`, `inf`); a cell of any other column is the cast -/
+theorem text_column_cell (ths : List Bytes) (h f : Bytes) :
+    (isTextColumn ths h = true → castIn ths h f = .text f ∧ cellString (castIn ths h f) = .str f) ∧
+    (isTextColumn ths h = false → castIn ths h f = cast f) := by
+  constructor <;> intro hh <;> simp [castIn, hh, cellString]
+
+/-- `Solution,Actions` / `x,1E5` with text heading `Actions`: the encoding stays text (C13's repair), the
+same text without headings gives the number 100000 -/
+example : loadT [[0x41]] [0x53, 0x2C, 0x41, 0x0A, 0x78, 0x2C, 0x31, 0x45, 0x35, 0x0A] =
+    .ok ⟨[[0x53], [0x41]], [[.text [0x78], .text [0x31, 0x45, 0x35]]], 2⟩ := by decide
+example : load [0x53, 0x2C, 0x41, 0x0A, 0x78, 0x2C, 0x31, 0x45, 0x35, 0x0A] =
+    .ok ⟨[[0x53], [0x41]], [[.text [0x78], .num 0x40F86A0000000000]], 2⟩ := by decide
+-- two columns with the same heading are both text columns; a heading that does not occur changes nothing
+example : loadT [[0x41], [0x5A]] [0x41, 0x2C, 0x41, 0x0A, 0x31, 0x2C, 0x46, 0x0A] =
+    .ok ⟨[[0x41], [0x41]], [[.text [0x31], .text [0x46]]], 2⟩ := by decide
+
+/-! ## a data set that is loaded into more than once
+
+"Either a table or an error" is two observations in Go, `Errors()` and `Table(name)`, on a data set
+that may have a history.  `ds.errors` only grows, so the clause is about what ONE load adds.  The
+code as found dropped `AddTable`'s refusal of a used name: the second text then gave neither
+(`csv:duplicate-table-neither-error-nor-table`; repaired in /repo, `reportDuplicate = true`). -/
+
+theorem parseInto_no_panic (rd : Bool) (ds : DataSet) (name : Bytes) (ths : List Bytes) (text : Bytes) :
+    DataSet.parseInto rd ds name ths text ≠ none := by
+  unfold DataSet.parseInto
+  have := loadT_no_panic ths text
+  split
+  · simp
+  · rename_i p hp; exact absurd hp (this p)
+  · split <;> simp
+
+/-- **Error xor table, on any data set** (repaired code): one load either adds exactly one error and
+leaves every table as it was, or adds no error and puts exactly the table of this text under the
+name — which was free — leaving every other name as it was. -/
+theorem parseInto_error_xor_table (ds ds' : DataSet) (name : Bytes) (ths : List Bytes) (text : Bytes)
+    (h : DataSet.parseInto true ds name ths text = some ds') :
+    (ds'.errors.length = ds.errors.length + 1 ∧ ds'.tables = ds.tables) ∨
+    (ds'.errors = ds.errors ∧ ds.table? name = none ∧ ∃ t, loadT ths text = .ok t ∧ ds'.table? name = some t ∧
+      ∀ other, other ≠ name → ds'.table? other = ds.table? other) := by
+  unfold DataSet.parseInto at h
+  split at h
+  · simp only [Option.some.injEq] at h; subst h; left; simp
+  · simp at h
+  · rename_i t ht
+    split at h
+    · simp only [↓reduceIte, Option.some.injEq] at h; subst h; left; simp
+    · rename_i hfree
+      simp only [Option.some.injEq] at h
+      subst h
+      right
+      refine ⟨rfl, hfree, t, ht, table?_append_new ds name t hfree, ?_⟩
+      intro other hne
+      unfold DataSet.table?
+      simp only [List.find?_append]
+      have : (List.find? (fun p => p.1 == other) [(name, t)]) = none := by
+        have hb : (name == other) = false := by simpa using Ne.symm hne
+        simp [List.find?, hb]
+      rw [this]
+      simp
+
+/-- … and which of the two happens: an error exactly when the text is malformed or the name is taken -/
+theorem parseInto_error_iff (ds ds' : DataSet) (name : Bytes) (ths : List Bytes) (text : Bytes)
+    (h : DataSet.parseInto true ds name ths text = some ds') :
+    ds'.errors.length = ds.errors.length + 1 ↔ ((∃ e, load text = .error e) ∨ ds.table? name ≠ none) := by
+  unfold DataSet.parseInto at h
+  split at h
+  · rename_i e he
+    simp only [Option.some.injEq] at h; subst h
+    simp [(loadT_error_iff ths text e).mp he]
+  · simp at h
+  · rename_i t ht
+    have hne : ¬ ∃ e, load text = .error e := by
+      rintro ⟨e, he⟩
+      rw [(loadT_error_iff ths text e).mpr he] at ht
+      simp at ht
+    split at h
+    · rename_i t' hsome
+      simp only [↓reduceIte, Option.some.injEq] at h; subst h
+      simp [hsome]
+    · rename_i hfree
+      simp only [Option.some.injEq] at h; subst h
+      simp [hfree, hne]
+
+/-- the code as found, refuted: `b\n2\n` loaded under the name already used for `a\n1\n` leaves no error
+and not its table … -/
+example :
+    ((DataSet.parseInto false {} [0x74] [] [0x61, 0x0A, 0x31, 0x0A]).bind
+      (fun ds => DataSet.parseInto false ds [0x74] [] [0x62, 0x0A, 0x32, 0x0A])) =
+    some { errors := [], tables := [([0x74], ⟨[[0x61]], [[.num 0x3FF0000000000000]], 1⟩)] } := by decide
+/-- … the repaired code reports it -/
+example :
+    ((DataSet.parseInto true {} [0x74] [] [0x61, 0x0A, 0x31, 0x0A]).bind
+      (fun ds => DataSet.parseInto true ds [0x74] [] [0x62, 0x0A, 0x32, 0x0A])) =
+    some { errors := [.duplicateTable], tables := [([0x74], ⟨[[0x61]], [[.num 0x3FF0000000000000]], 1⟩)] } := by decide
+/-- errors are sticky: a good text after a bad one still loads, and `Errors()` keeps reporting the bad one -/
+example :
+    ((DataSet.parseInto true {} [0x74] [] [0x22]).bind
+      (fun ds => DataSet.parseInto true ds [0x74] [] [0x62, 0x0A])) =
+    some { errors := [.csv .quote], tables := [([0x74], ⟨[[0x62]], [], 1⟩)] } := by decide
+
+/-! ## the VALUE of a number cell
+
+`isNumeric` / `specCell` / `numeric_cell` above say *which* fields become numbers and that the cell
+holds `parseFloat`'s result; what that result IS, is pinned down here against a specification that
+does not mention the parsing code: `natOf` (the number a digit string denotes), `bitsOfNat` (the
+binary64 pattern of a small integer), `decodePos` (the rational a pattern denotes) and `NearestEven`
+(IEEE 754 round-to-nearest, ties to even).
+
+Scope.  The model's rounding follows mathematics.  `strconv.ParseFloat` (go1.23 and go1.26) does
+not for some decimal literals with more than 800 significant mantissa digits: its multiprecision
+fallback stores 800 digits and, when the decimal point comes after more than 800 of them (or is
+absent), takes the position of the point from the stored digits, so the value comes out too small
+by the factor 10^(d−800), d = digits before the point (an 850-digit integer mantissa with `e-845`:
+about 3.5e-46 instead of 35075.4).  The fallback is reached only when the Eisel-Lemire fast path
+gives up (a few inputs in a thousand).  That is a defect of Go's strconv, not of crem — crem stores
+exactly what `ParseFloat` returns — but it bounds what the MODEL may be claimed to describe.  The
+theorems about decimal literals therefore carry the decidable hypothesis `mantDigits f ≤ 800`: the
+proofs do not need it (the model rounds correctly everywhere), the tie to the Go code does.  The
+corpus keeps one such literal (`corpus/C20/long-mantissa.ops`, op `castgo`), judged on the Go side
+against `strconv.ParseFloat` only. -/
+
+/-- **Integers below 2^53 are parsed exactly**: a non-empty string of decimal digits denoting
+`n < 2^53` becomes the number cell with the binary64 pattern of `n` … -/
+theorem parseFloat_small_nat (ds : Bytes) (hne : ds ≠ []) (h : allDigits ds = true) (hlt : natOf ds < 2 ^ 53) :
+    parseFloat ds = some (bitsOfNat (natOf ds)) ∧ cast ds = .num (bitsOfNat (natOf ds)) := by
+  have := parseFloat_digits ds hne h hlt
+  exact ⟨this, by simp [cast, this]⟩
+
+/-- … and that pattern denotes `n` -/
+theorem bitsOfNat_value (n : Nat) (h : n < 2 ^ 53) : decodePos (bitsOfNat n) = n := by
+  unfold bitsOfNat
+  split
+  · rename_i h0; subst h0; simp [decodePos]
+  · rename_i hn
+    have hL : n.log2 < 53 := (Nat.log2_lt hn).mpr h
+    have h2 : 2 ^ n.log2 ≤ n := Nat.log2_self_le hn
+    have h3 : n < 2 ^ (n.log2 + 1) := Nat.lt_log2_self
+    have hpow : 2 ^ n.log2 * 2 ^ (52 - n.log2) = 2 ^ 52 := by
+      rw [← Nat.pow_add]; congr 1; omega
+    have hpow' : 2 ^ (n.log2 + 1) * 2 ^ (52 - n.log2) = 2 ^ 53 := by
+      rw [← Nat.pow_add]; congr 1; omega
+    have hge : 2 ^ 52 ≤ n * 2 ^ (52 - n.log2) := by
+      rw [← hpow]; exact Nat.mul_le_mul_right _ h2
+    have hlt : n * 2 ^ (52 - n.log2) < 2 ^ 53 := by
+      rw [← hpow']; exact Nat.mul_lt_mul_of_pos_right h3 (Nat.pow_pos (by decide))
+    have hshape : (1023 + n.log2) * 2 ^ 52 + (n * 2 ^ (52 - n.log2) - 2 ^ 52) =
+        (1022 + n.log2) * 2 ^ 52 + n * 2 ^ (52 - n.log2) := by omega
+    rw [hshape, decodePos_enc _ _ hlt.le (fun _ => hge)]
+    push_cast
+    have : ((1022 : ℤ) + (n.log2 : ℤ) - 1074) = -((52 - n.log2 : ℕ) : ℤ) := by omega
+    rw [this, zpow_neg, zpow_natCast, mul_assoc, mul_inv_cancel₀ (by positivity), mul_one]
+
+example : natOf [0x34, 0x32] = 42 ∧ bitsOfNat 42 = 0x4045000000000000 := by decide
+example : parseFloat [0x30, 0x30, 0x37] = some (bitsOfNat 7) := by decide     -- `007`
+-- 2^53 + 1 = 9007199254740993 is outside: it is not representable and rounds to 2^53
+example : natOf [0x39, 0x30, 0x30, 0x37, 0x31, 0x39, 0x39, 0x32, 0x35, 0x34, 0x37, 0x34, 0x30, 0x39, 0x39, 0x33] = 2 ^ 53 + 1 ∧
+    parseFloat [0x39, 0x30, 0x30, 0x37, 0x31, 0x39, 0x39, 0x32, 0x35, 0x34, 0x37, 0x34, 0x30, 0x39, 0x39, 0x33] = some 0x4340000000000000 := by decide
+
+/-- the nearest-even pattern of a value is unique: `NearestEven` pins the cell down -/
+theorem value_unique (x : ℚ) (b₁ b₂ : Nat) (h₁ : NearestEven x b₁) (h₂ : NearestEven x b₂) : b₁ = b₂ :=
+  nearestEven_unique x b₁ b₂ h₁ h₂
+
+/-- **Decimal literals are correctly rounded** (C20 "numeric fields as numbers", full strength for the
+literals `± digits [. digits] [e ± digits]` with at most 800 significant digits).  If the grammar
+reads the field as `± m × 10^e` with `m ≠ 0`, then
+* below `2^1024 − 2^970` (MaxFloat64 plus half an ulp) the field is numeric and its cell is THE
+  binary64 number nearest to `m × 10^e`, ties to even (unique by `value_unique`), with the sign;
+* from there on `ParseFloat` reports a range error and the field is not numeric (it stays text). -/
+theorem numeric_value_dec (f : Bytes) (neg : Bool) (m nd : Nat) (e : Int)
+    (hl : parseLit f = some (.dec neg m nd e)) (hm : m ≠ 0) (_h800 : mantDigits f ≤ 800) :
+    (decValue m e < 2 ^ 1024 - 2 ^ 970 →
+      ∃ b, b < bitsInf ∧ NearestEven (decValue m e) b ∧ parseFloat f = some (withSign neg b) ∧
+        cast f = .num (withSign neg b)) ∧
+    (2 ^ 1024 - 2 ^ 970 ≤ decValue m e → parseFloat f = none ∧ isNumeric f = false) := by
+  have hnd : 0 < nd ∧ 10 ^ (nd - 1) ≤ m ∧ m < 10 ^ nd := by
+    rcases parseLit_dec_ndOk f neg m nd e hl with ⟨h0, _⟩ | h
+    · exact absurd h0 hm
+    · exact h
+  have hpf : parseFloat f = (Lit.dec neg m nd e).bits := by simp [parseFloat, hl]
+  obtain ⟨h1, h2⟩ := dec_bits_spec neg m nd e hnd
+  constructor
+  · intro hx
+    obtain ⟨b, hb, hne, hbits⟩ := h1 hx
+    exact ⟨b, hb, hne, by rw [hpf, hbits], by simp [cast, hpf, hbits]⟩
+  · intro hx
+    have := h2 hx
+    exact ⟨by rw [hpf, this], by simp [isNumeric, hpf, this]⟩
+
+/-- a literal with mantissa zero is the zero of its sign -/
+theorem numeric_value_zero (f : Bytes) (neg : Bool) (nd : Nat) (e : Int)
+    (hl : parseLit f = some (.dec neg 0 nd e)) : parseFloat f = some (withSign neg 0) := by
+  simp [parseFloat, hl, Lit.bits]
+
+/-- **Hexadecimal literals are correctly rounded** (`0x… p ±…`): as `numeric_value_dec`, for `± m × 2^e` -/
+theorem numeric_value_hex (f : Bytes) (neg : Bool) (m : Nat) (e : Int)
+    (hl : parseLit f = some (.hex neg m e)) (hm : m ≠ 0) :
+    (hexValue m e < 2 ^ 1024 - 2 ^ 970 →
+      ∃ b, b < bitsInf ∧ NearestEven (hexValue m e) b ∧ parseFloat f = some (withSign neg b) ∧
+        cast f = .num (withSign neg b)) ∧
+    (2 ^ 1024 - 2 ^ 970 ≤ hexValue m e → parseFloat f = none ∧ isNumeric f = false) := by
+  have hpf : parseFloat f = (Lit.hex neg m e).bits := by simp [parseFloat, hl]
+  obtain ⟨h1, h2⟩ := hex_bits_spec neg m e hm
+  constructor
+  · intro hx
+    obtain ⟨b, hb, hne, hbits⟩ := h1 hx
+    exact ⟨b, hb, hne, by rw [hpf, hbits], by simp [cast, hpf, hbits]⟩
+  · intro hx
+    have := h2 hx
+    exact ⟨by rw [hpf, this], by simp [isNumeric, hpf, this]⟩
+
+/-- the grammar on a plain digit string: mantissa = the number, exponent 0 (so `numeric_value_dec`
+speaks about `natOf ds`), `mantDigits` = its number of digits without leading zeros -/
+theorem digits_literal (ds : Bytes) (hne : ds ≠ []) (h : allDigits ds = true) :
+    parseLit ds = some (.dec false (natOf ds) (mantDigits ds) 0) := by
+  obtain ⟨nd, hl, _⟩ := parseLit_digits ds hne h
+  have : mantDigits ds = nd := by simp [mantDigits, hl]
+  rw [this]; exact hl
+
+/- non-vacuity: `0.1` is `1 × 10^-1`, one mantissa digit, cell 0x3FB999999999999A; `1e400` is out of range -/
+example : parseLit [0x30, 0x2E, 0x31] = some (.dec false 1 1 (-1)) ∧ mantDigits [0x30, 0x2E, 0x31] = 1 ∧
+    parseFloat [0x30, 0x2E, 0x31] = some 0x3FB999999999999A := by decide
+example : parseLit [0x31, 0x65, 0x34, 0x30, 0x30] = some (.dec false 1 1 400) ∧ parseFloat [0x31, 0x65, 0x34, 0x30, 0x30] = none := by decide
+example : parseLit [0x2D, 0x30, 0x78, 0x31, 0x2E, 0x38, 0x70, 0x31] = some (.hex true 0x18 (-3)) := by decide   -- -0x1.8p1
+
+/-- the literal kept in `corpus/C20/long-mantissa.ops`: 850 mantissa digits and `e-845` -/
+def longMantissaWitness : Bytes := [
+  0x33, 0x35, 0x30, 0x37, 0x35, 0x34, 0x34, 0x35, 0x34, 0x38, 0x30, 0x31, 0x36, 0x36, 0x30, 0x34, 0x33, 0x31,
+  0x32, 0x30, 0x36, 0x38, 0x33, 0x33, 0x36, 0x32, 0x37, 0x31, 0x37, 0x32, 0x30, 0x37, 0x31, 0x38, 0x36, 0x35,
+  0x33, 0x33, 0x39, 0x32, 0x32, 0x34, 0x39, 0x39, 0x31, 0x31, 0x38, 0x30, 0x38, 0x34, 0x33, 0x38, 0x39, 0x32,
+  0x35, 0x33, 0x36, 0x34, 0x36, 0x30, 0x36, 0x30, 0x38, 0x34, 0x32, 0x37, 0x33, 0x34, 0x36, 0x32, 0x38, 0x32,
+  0x34, 0x38, 0x33, 0x39, 0x31, 0x37, 0x38, 0x31, 0x37, 0x39, 0x37, 0x37, 0x36, 0x37, 0x38, 0x38, 0x31, 0x38,
+  0x32, 0x36, 0x31, 0x38, 0x38, 0x31, 0x30, 0x30, 0x35, 0x35, 0x31, 0x35, 0x33, 0x38, 0x38, 0x36, 0x32, 0x34,
+  0x35, 0x38, 0x36, 0x38, 0x30, 0x30, 0x37, 0x30, 0x33, 0x37, 0x35, 0x32, 0x37, 0x39, 0x35, 0x30, 0x34, 0x35,
+  0x34, 0x38, 0x32, 0x33, 0x33, 0x30, 0x39, 0x36, 0x38, 0x37, 0x38, 0x32, 0x30, 0x36, 0x38, 0x32, 0x32, 0x37,
+  0x39, 0x30, 0x36, 0x31, 0x30, 0x37, 0x39, 0x39, 0x38, 0x35, 0x32, 0x34, 0x37, 0x32, 0x37, 0x38, 0x37, 0x38,
+  0x31, 0x38, 0x37, 0x37, 0x37, 0x37, 0x31, 0x30, 0x34, 0x39, 0x30, 0x33, 0x30, 0x30, 0x37, 0x31, 0x37, 0x36,
+  0x30, 0x36, 0x33, 0x32, 0x30, 0x37, 0x39, 0x34, 0x35, 0x32, 0x37, 0x30, 0x36, 0x33, 0x37, 0x30, 0x32, 0x30,
+  0x37, 0x30, 0x33, 0x34, 0x30, 0x38, 0x39, 0x34, 0x38, 0x38, 0x32, 0x34, 0x37, 0x33, 0x32, 0x34, 0x37, 0x31,
+  0x37, 0x32, 0x35, 0x32, 0x37, 0x30, 0x34, 0x39, 0x37, 0x33, 0x30, 0x36, 0x32, 0x39, 0x36, 0x33, 0x39, 0x38,
+  0x34, 0x37, 0x36, 0x35, 0x39, 0x31, 0x36, 0x32, 0x36, 0x36, 0x33, 0x31, 0x39, 0x33, 0x39, 0x39, 0x33, 0x38,
+  0x39, 0x31, 0x30, 0x36, 0x34, 0x32, 0x34, 0x35, 0x33, 0x33, 0x34, 0x31, 0x34, 0x35, 0x39, 0x30, 0x35, 0x35,
+  0x33, 0x35, 0x38, 0x39, 0x37, 0x37, 0x33, 0x33, 0x31, 0x38, 0x37, 0x31, 0x32, 0x35, 0x33, 0x34, 0x33, 0x36,
+  0x31, 0x31, 0x34, 0x36, 0x32, 0x38, 0x39, 0x37, 0x31, 0x30, 0x39, 0x30, 0x39, 0x37, 0x31, 0x33, 0x33, 0x38,
+  0x38, 0x37, 0x31, 0x30, 0x35, 0x36, 0x38, 0x35, 0x35, 0x32, 0x38, 0x38, 0x32, 0x34, 0x37, 0x38, 0x37, 0x32,
+  0x32, 0x32, 0x39, 0x30, 0x38, 0x35, 0x35, 0x38, 0x33, 0x37, 0x33, 0x36, 0x32, 0x35, 0x36, 0x38, 0x33, 0x30,
+  0x30, 0x31, 0x34, 0x32, 0x36, 0x30, 0x30, 0x35, 0x35, 0x34, 0x36, 0x39, 0x36, 0x38, 0x38, 0x39, 0x38, 0x36,
+  0x34, 0x35, 0x39, 0x31, 0x31, 0x31, 0x34, 0x35, 0x31, 0x32, 0x33, 0x38, 0x32, 0x34, 0x36, 0x31, 0x35, 0x37,
+  0x33, 0x37, 0x31, 0x33, 0x31, 0x33, 0x31, 0x31, 0x39, 0x31, 0x37, 0x31, 0x36, 0x33, 0x33, 0x36, 0x38, 0x39,
+  0x39, 0x39, 0x39, 0x37, 0x37, 0x35, 0x35, 0x36, 0x36, 0x38, 0x33, 0x36, 0x34, 0x38, 0x36, 0x31, 0x35, 0x35,
+  0x37, 0x35, 0x31, 0x33, 0x31, 0x31, 0x39, 0x37, 0x32, 0x35, 0x31, 0x36, 0x37, 0x39, 0x36, 0x30, 0x30, 0x39,
+  0x34, 0x34, 0x33, 0x31, 0x34, 0x33, 0x39, 0x35, 0x30, 0x32, 0x37, 0x39, 0x31, 0x33, 0x39, 0x30, 0x31, 0x36,
+  0x37, 0x37, 0x30, 0x31, 0x39, 0x30, 0x33, 0x30, 0x31, 0x31, 0x36, 0x31, 0x38, 0x38, 0x34, 0x30, 0x36, 0x33,
+  0x36, 0x30, 0x34, 0x33, 0x32, 0x30, 0x39, 0x30, 0x31, 0x39, 0x34, 0x36, 0x31, 0x33, 0x30, 0x33, 0x32, 0x39,
+  0x30, 0x34, 0x33, 0x37, 0x35, 0x35, 0x35, 0x34, 0x36, 0x38, 0x34, 0x31, 0x31, 0x36, 0x38, 0x38, 0x34, 0x34,
+  0x34, 0x30, 0x31, 0x32, 0x30, 0x34, 0x30, 0x39, 0x32, 0x35, 0x37, 0x30, 0x34, 0x33, 0x32, 0x37, 0x33, 0x34,
+  0x38, 0x38, 0x38, 0x39, 0x36, 0x30, 0x38, 0x31, 0x37, 0x36, 0x31, 0x37, 0x32, 0x30, 0x33, 0x38, 0x37, 0x37,
+  0x32, 0x37, 0x38, 0x36, 0x32, 0x38, 0x37, 0x37, 0x35, 0x36, 0x35, 0x31, 0x38, 0x38, 0x32, 0x39, 0x34, 0x33,
+  0x33, 0x30, 0x35, 0x36, 0x38, 0x38, 0x30, 0x39, 0x32, 0x33, 0x34, 0x37, 0x32, 0x33, 0x30, 0x39, 0x32, 0x30,
+  0x34, 0x34, 0x31, 0x37, 0x37, 0x31, 0x32, 0x37, 0x37, 0x34, 0x39, 0x36, 0x39, 0x30, 0x35, 0x37, 0x32, 0x33,
+  0x37, 0x34, 0x30, 0x35, 0x35, 0x37, 0x36, 0x34, 0x37, 0x35, 0x34, 0x36, 0x36, 0x36, 0x31, 0x34, 0x34, 0x33,
+  0x34, 0x38, 0x36, 0x35, 0x30, 0x34, 0x33, 0x32, 0x39, 0x32, 0x39, 0x38, 0x37, 0x38, 0x30, 0x35, 0x37, 0x31,
+  0x32, 0x34, 0x39, 0x32, 0x37, 0x38, 0x36, 0x31, 0x30, 0x37, 0x34, 0x39, 0x38, 0x39, 0x31, 0x33, 0x37, 0x30,
+  0x38, 0x36, 0x37, 0x37, 0x30, 0x30, 0x36, 0x31, 0x37, 0x34, 0x30, 0x31, 0x34, 0x33, 0x36, 0x32, 0x37, 0x31,
+  0x36, 0x37, 0x32, 0x30, 0x34, 0x32, 0x37, 0x31, 0x31, 0x31, 0x39, 0x36, 0x33, 0x37, 0x37, 0x39, 0x37, 0x38,
+  0x30, 0x35, 0x38, 0x34, 0x37, 0x31, 0x30, 0x30, 0x30, 0x30, 0x35, 0x33, 0x33, 0x34, 0x35, 0x39, 0x30, 0x36,
+  0x31, 0x30, 0x39, 0x31, 0x31, 0x34, 0x37, 0x39, 0x33, 0x38, 0x33, 0x34, 0x37, 0x34, 0x37, 0x30, 0x31, 0x30,
+  0x32, 0x39, 0x39, 0x33, 0x36, 0x36, 0x33, 0x38, 0x31, 0x38, 0x31, 0x37, 0x39, 0x30, 0x32, 0x31, 0x33, 0x38,
+  0x30, 0x35, 0x32, 0x34, 0x37, 0x34, 0x36, 0x35, 0x36, 0x30, 0x32, 0x33, 0x37, 0x36, 0x38, 0x37, 0x34, 0x33,
+  0x31, 0x32, 0x39, 0x38, 0x30, 0x36, 0x32, 0x34, 0x37, 0x33, 0x35, 0x35, 0x37, 0x38, 0x32, 0x38, 0x34, 0x36,
+  0x35, 0x37, 0x37, 0x39, 0x32, 0x32, 0x36, 0x33, 0x35, 0x37, 0x31, 0x30, 0x34, 0x30, 0x39, 0x38, 0x36, 0x35,
+  0x35, 0x35, 0x31, 0x34, 0x30, 0x38, 0x31, 0x32, 0x34, 0x35, 0x34, 0x31, 0x36, 0x31, 0x30, 0x35, 0x35, 0x33,
+  0x37, 0x36, 0x33, 0x31, 0x38, 0x31, 0x31, 0x31, 0x32, 0x39, 0x32, 0x32, 0x39, 0x35, 0x35, 0x36, 0x30, 0x39,
+  0x31, 0x39, 0x33, 0x33, 0x33, 0x37, 0x34, 0x31, 0x39, 0x38, 0x35, 0x32, 0x32, 0x31, 0x35, 0x31, 0x38, 0x31,
+  0x31, 0x38, 0x34, 0x33, 0x65, 0x2D, 0x38, 0x34, 0x35]
+
+/- outside the scope hypothesis: the model gives the correctly rounded 35075.44548016604
+(`0x40E1206E415F9F05`); go1.23 / go1.26 `strconv.ParseFloat` return 3.507544548016604e-46
+(`0x3680050692F610E5`) for this literal — off by 10^50 = 10^(850−800). -/
+set_option maxRecDepth 100000 in
+set_option exponentiation.threshold 1000 in
+example : mantDigits longMantissaWitness = 850 ∧ parseFloat longMantissaWitness = some 0x40E1206E415F9F05 := by decide
 
 /-! sanity examples of the reader and the cast grammar (tests, labelled as such) -/
 
